@@ -107,8 +107,11 @@ pub struct Choice {
     pub is_invisible_default: bool,
     pub has_start_content: bool,
     pub has_choice_only_content: bool,
+    /// Tags of the text before `[` (or of the whole text of a choice without `[ ]`):
+    /// they belong to the offered choice and to the line printed when it is taken.
     pub start_tags: Vec<DynamicString>,
     pub choice_only_tags: Vec<DynamicString>,
+    /// Tags of the text after `]`.
     pub selected_tags: Vec<DynamicString>,
     /// Nesting level of this choice: 1 for `*`/`+`, 2 for `**`/`++`, etc.
     pub nesting_level: usize,
